@@ -187,25 +187,36 @@ package route
 //@ end
 
 //@ contract (*BGPPath).insertNewASSequence
-//@   props C09 C17
+//@   props C09 C17 C13
 //@   requires b != nil && b.ASPath != nil
 //@   old n int = len(*b.ASPath)
 //@   old fit bool = spec_segsFit(b)
 //@   ensures b.ASPath != nil && len(*b.ASPath) == n+1 && (*b.ASPath)[0].Type == types.ASSequence && len((*b.ASPath)[0].ASNs) == 0
 //@   ensures fit ==> spec_segsFit(b)
+//@   ensures verif_fresh(b.ASPath) && verif_freshslice(*b.ASPath)
 //@   modifies b
 
+// Prepending writes the path object and its segment list only (a segment's
+// list of ASNs is replaced by a new one, never written in place: it may be
+// shared with the path this one was copied from).
 //@ contract (*BGPPath).Prepend
-//@   props C09 C17
+//@   props C09 C17 C13
 //@   requires b != nil && b.ASPath != nil
 //@   old fit bool = spec_segsFit(b)
-//@   ensures b.ASPath != nil
+//@   old box0 *types.ASPath = b.ASPath
+//@   old arr0 any = verif_arrayof(*b.ASPath)
+//@   old a0 *BGPPathA = b.BGPPathA
+//@   modifies b, verif_arrayof(*b.ASPath)
+//@   ensures b.ASPath != nil && b.BGPPathA == a0
+//@   ensures[C13] (b.ASPath == box0 && verif_arrayof(*b.ASPath) == arr0) || (verif_fresh(b.ASPath) && verif_freshslice(*b.ASPath))
 //@   ensures[C09] times >= 1 ==> len(*b.ASPath) >= 1 && (*b.ASPath)[0].Type != types.ASSet && len((*b.ASPath)[0].ASNs) >= 1 && (*b.ASPath)[0].ASNs[0] == asn
 //@   ensures[C17] fit ==> spec_segsFit(b)
 //@   loop 0 vars i int
 //@   loop 0 invariant b.ASPath != nil && len(*b.ASPath) >= 1 && (*b.ASPath)[0].Type != types.ASSet && i >= 0
 //@   loop 0 invariant i >= 1 ==> len((*b.ASPath)[0].ASNs) >= 1 && (*b.ASPath)[0].ASNs[0] == asn
 //@   loop 0 invariant fit ==> spec_segsFit(b)
+//@   loop 0 invariant b.BGPPathA == a0
+//@   loop 0 invariant (b.ASPath == box0 && verif_arrayof(*b.ASPath) == arr0) || (verif_fresh(b.ASPath) && verif_freshslice(*b.ASPath))
 
 // Property C34: converting a route to its API representation and back keeps
 // the prefix, the path type and every BGP attribute the API schema has a field
@@ -426,3 +437,52 @@ package route
 //@   loop 0 vars r *Route, rangeindex int
 //@   loop 0 invariant r != nil && verif_fresh(r) && len(r.paths) == rangeindex+1 && verif_freshslice(r.paths) && r.pfx != nil && uint32(r.pfx.Len()) == ar.Pfx.Length&255 && spec_sameIP(ar.Pfx.Address, r.pfx.Addr().Ptr())
 //@   loop 0 invariant forall(k, 0, rangeindex+1, spec_pathFrom(ar.Paths[k], r.paths[k]))
+
+// Properties C13 / C14: a policy works on a copy. Copy gives the path object, its
+// BGP path, the attribute block and the AS-path segment list objects of their
+// own (the ASN lists of the segments, the unknown attributes and the next hop
+// object are shared with the original and must not be written).
+//@ spec
+//@ // q and the objects a policy action may write through it were allocated during this execution
+//@ func Spec_WorkFresh(q *Path) bool {
+//@ 	return verif_fresh(q) && (q.BGPPath == nil || (verif_fresh(q.BGPPath) &&
+//@ 		(q.BGPPath.BGPPathA == nil || verif_fresh(q.BGPPath.BGPPathA)) &&
+//@ 		(q.BGPPath.ASPath == nil || (verif_fresh(q.BGPPath.ASPath) && verif_freshslice(*q.BGPPath.ASPath)))))
+//@ }
+//@ end
+
+//@ contract (*BGPPathA).Copy
+//@   props C13 C14
+//@   nilrecv
+//@   ensures (bpa == nil) == (result == nil)
+//@   ensures bpa != nil ==> verif_fresh(result) && *result == *bpa
+//@   modifies nothing
+
+//@ contract (*BGPPath).Copy
+//@   props C13 C14
+//@   nilrecv
+//@   ensures (b == nil) == (result == nil)
+//@   ensures b != nil ==> verif_fresh(result) && (b.BGPPathA == nil) == (result.BGPPathA == nil) && (b.ASPath == nil) == (result.ASPath == nil)
+//@   ensures b != nil && b.BGPPathA != nil ==> verif_fresh(result.BGPPathA) && *result.BGPPathA == *b.BGPPathA
+//@   ensures b != nil && b.ASPath != nil ==> verif_fresh(result.ASPath) && verif_freshslice(*result.ASPath) && verif_sameelems(*result.ASPath, *b.ASPath)
+//@   ensures b != nil ==> result.PathIdentifier == b.PathIdentifier && result.ASPathLen == b.ASPathLen && result.BMPPostPolicy == b.BMPPostPolicy
+//@   modifies nothing
+
+//@ contract (*StaticPath).Copy
+//@   props C13 C14
+//@   nilrecv
+//@   ensures (s == nil) == (result == nil)
+//@   ensures s != nil ==> verif_fresh(result) && result.NextHop == s.NextHop
+//@   modifies nothing
+
+//@ contract (*Path).Copy
+//@   props C13 C14
+//@   nilrecv
+//@   ensures (p == nil) == (result == nil)
+//@   ensures p != nil ==> (p.StaticPath == nil) == (result.StaticPath == nil) && (result.StaticPath == nil || verif_fresh(result.StaticPath))
+//@   ensures p != nil ==> Spec_WorkFresh(result) && result.Type == p.Type && result.HiddenReason == p.HiddenReason && result.LTime == p.LTime && result.RedistributedFrom == p.RedistributedFrom
+//@   ensures p != nil ==> (p.BGPPath == nil) == (result.BGPPath == nil)
+//@   ensures p != nil && p.BGPPath != nil ==> (p.BGPPath.BGPPathA == nil) == (result.BGPPath.BGPPathA == nil) && (p.BGPPath.ASPath == nil) == (result.BGPPath.ASPath == nil)
+//@   ensures p != nil && p.BGPPath != nil && p.BGPPath.BGPPathA != nil ==> *result.BGPPath.BGPPathA == *p.BGPPath.BGPPathA
+//@   ensures p != nil && p.BGPPath != nil && p.BGPPath.ASPath != nil ==> verif_sameelems(*result.BGPPath.ASPath, *p.BGPPath.ASPath)
+//@   modifies nothing
